@@ -754,9 +754,14 @@ class UnionUnmarshaller(AbstractUnmarshaller[UnionT], tp.Generic[UnionT]):
         """
         for routine in self.ordered_routines:
             # Whichever error a member uses to reject the input, the next member gets its turn.
-            with contextlib.suppress(Exception):
+            #   (Running out of stack or memory is no rejection.)
+            try:
                 unmarshalled = routine(val)
                 return unmarshalled
+            except (RecursionError, MemoryError):
+                raise
+            except Exception:  # noqa: BLE001
+                continue
 
         raise ValueError(f"{val!r} is not one of types {self.stack!r}")
 
